@@ -170,7 +170,7 @@ static void HandleBuildLog(const json& in) {
     } else if (k == "tear_scan") {
       string all = ReadAll(path);
       string tmp = dir + "/tear.log";
-      json scans = json::array();
+      json scans = json::array(); json prev_entries;
       int64_t a = op.value("from", (int64_t)0), b = op.value("to", (int64_t)all.size());
       if (b > (int64_t)all.size()) b = all.size();
       vector<int64_t> offs;
@@ -186,7 +186,11 @@ static void HandleBuildLog(const json& in) {
         WriteAll(tmp, all.substr(0, n));
         BuildLog b2; string err; LoadStatus st = b2.Load(tmp, &err);
         struct stat sb; bool ex = stat(tmp.c_str(), &sb) == 0;
-        scans.push_back({{"n", n}, {"load", (int)st}, {"warn", err}, {"entries", DumpEntries(b2)}, {"exists", ex}});
+        // consecutive offsets inside one record load the same state: send it once (the result stays linear in the file)
+        json ents = DumpEntries(b2);
+        json sc = {{"n", n}, {"load", (int)st}, {"warn", err}, {"exists", ex}};
+        if (!scans.empty() && ents == prev_entries) sc["entries_same"] = true; else { sc["entries"] = ents; prev_entries = ents; }
+        scans.push_back(sc);
         unlink(tmp.c_str());
       }
       r["scans"] = scans; r["size"] = (int64_t)all.size();
@@ -313,7 +317,7 @@ static void HandleDepsLog(const json& in) {
     } else if (k == "tear_scan") {
       string all = ReadAll(path);
       string tmp = dir + "/tear.deps";
-      json scans = json::array();
+      json scans = json::array(); json prev_deps, prev_reload; bool have_prev_reload = false;
       vector<int64_t> offs;
       if (op.contains("offsets")) for (auto& o : op["offsets"]) offs.push_back(o.get<int64_t>());
       else if ((int64_t)all.size() <= 3000) for (int64_t n = 0; n <= (int64_t)all.size(); ++n) offs.push_back(n);
@@ -327,14 +331,20 @@ static void HandleDepsLog(const json& in) {
         if (n < 0 || n > (int64_t)all.size()) continue;
         WriteAll(tmp, all.substr(0, n) + tail);
         State s2; DepsLog d2; string err; LoadStatus st = d2.Load(tmp, &s2, &err);
-        json sc = {{"n", n}, {"load", (int)st}, {"warn", err}, {"deps", DumpDeps(d2)}, {"npaths", (int)d2.nodes().size()}, {"size_after_load", fsize(tmp)}};
+        json sc = {{"n", n}, {"load", (int)st}, {"warn", err}, {"npaths", (int)d2.nodes().size()}, {"size_after_load", fsize(tmp)}};
+        {
+          json dd = DumpDeps(d2);
+          if (!scans.empty() && dd == prev_deps) sc["deps_same"] = true; else { sc["deps"] = dd; prev_deps = dd; }
+        }
         if (op.value("then_append", false) && st != LOAD_ERROR) {
           // a later session appends one record behind the recovered prefix; a third session must see everything
           string e2; d2.OpenForWrite(tmp, &e2);
           Node* o = s2.GetNode("appended.o", 0); vector<Node*> ins{s2.GetNode("appended.h", 0)};
           bool ok = d2.RecordDeps(o, 4242, ins); d2.Close();
           State s3; DepsLog d3; string e3; LoadStatus st3 = d3.Load(tmp, &s3, &e3);
-          sc["append_ok"] = ok; sc["reload"] = (int)st3; sc["reload_warn"] = e3; sc["reload_deps"] = DumpDeps(d3);
+          sc["append_ok"] = ok; sc["reload"] = (int)st3; sc["reload_warn"] = e3;
+          json rd = DumpDeps(d3);
+          if (have_prev_reload && rd == prev_reload) sc["reload_deps_same"] = true; else { sc["reload_deps"] = rd; prev_reload = rd; have_prev_reload = true; }
         }
         scans.push_back(sc);
         unlink(tmp.c_str());
